@@ -130,11 +130,16 @@ REASONS = [
      "constant regex literal validated on every run", None),
     # ------------------------------------------------------------------ filters/network.rs
     (r"^filters::network::NetworkFilter::parse$", r".", "local",
-     "filter_index_start / first_separator_start are 0, a SEPARATOR regex match start (1-byte ASCII) or a "
-     "memchr(b'/') hit, +1 after '*'; filter_index_end is pattern.len(), -1 after ends_with('*'); every slice "
-     "is guarded by end > start or start < len", None),
+     "filter_index_start / first_separator_start are 0, a SEPARATOR regex match start (1-byte ASCII: one of / ^ * :) "
+     "found from host_search_start, or the position of a '/' / ':' byte counted from host_search_start, +1 after '*'; "
+     "host_search_start = ipv6_literal_end(pattern) is 0 or one past a ']' byte of the pattern (<= len, a char "
+     "boundary), so pattern.as_bytes()[host_search_start..] and find_at(pattern, host_search_start) are in range; "
+     "filter_index_end is pattern.len(), -1 after ends_with('*'); every slice is guarded by end > start or "
+     "start < len", None),
     (r"^filters::network::NetworkFilter::parse::\{closure#\d\}$", r".", "local",
-     "pattern[..i] with i = memchr(b'/', pattern)", None),
+     "pattern[..i] with i = host_search_start + position of the first '/' or ':' byte in pattern[host_search_start..]", None),
+    (r"^filters::network::ipv6_literal_end$", r".", "local",
+     "i + 1 with i = memchr(b']', pattern) < len: usize cannot overflow", None),
     (r"^filters::network::NetworkFilter::parse::SEPARATOR::\{closure#0\}$|parse_hosts_style::INVALID_CHARS::\{closure#0\}$", r"^unwrap\|", "total",
      "constant regex literal (validated with regex-syntax on every run)", None),
     (r"^filters::network::NetworkFilter::parse_hosts_style$", r"^index\|", "local",
